@@ -108,7 +108,10 @@ Definition is_default_read (w : world) (o : op) : option (inst * Z * tdef) :=
         let ins := nth (Z.to_nat i) (w_insts w) (new_inst 0) in
         match alookup n (i_dict ins) with
         | Some _ => None
-        | None => match resolve w ins n with Some t => Some (ins, n, t) | None => None end
+        | None => match resolve w ins n with
+                  | Some t => match t_kind t with KEvent => None | _ => Some (ins, n, t) end   (* events are write-only *)
+                  | None => None
+                  end
         end
       else None
   | _ => None
@@ -145,7 +148,7 @@ Definition law_step (w : world) (o : op) (ob : obs) : list Z :=
   end
   (* 4: a read of a stored value returns that very object and changes nothing *)
   ++ match is_stored_read w o with
-     | Some (ins, v) => chk 11 (negb (o_exc ob)) ++ chk 4 (value_eqb (o_ret ob) v && inst_eqb after ins)
+     | Some (ins, v) => chk 4 (value_eqb (o_ret ob) v && inst_eqb after ins)
      | None => []
      end
   (* 2: reads never reach a handler *)
